@@ -1,5 +1,5 @@
 P = {
-    "gens": ["C01parse", "C02rules"],
+    "gens": ["C01parse", "C02rules", "C01state"],
     "theorems": ["C01_roundtrip", "C01_reserialise"],
     "rule": "C01parse: bundles built from the Go structs (dtn/ipn/none endpoints, every admissible flag combination incl. "
             "reserved bits, CRC none/16/32 per block, fragments, all eight registered block types + unknown types, field "
@@ -8,7 +8,21 @@ P = {
             "insertion, deletion, trailing garbage, break codes) and random garbage; C02rules: ~350 hand-crafted encodings "
             "(own CBOR writer) each violating exactly one rule or using a tolerated non-minimal layout. Every case: accept/"
             "reject, parsed structure, ID string, bytes consumed, re-serialisation, second parse and second serialisation "
-            "compared with the model; distinct = distinct case bodies",
+            "compared with the model; distinct = distinct case bodies. "
+            "C01state (codec not in its initial state, not alone; harness/codecstate.go): ref = a valid bundle (every second one "
+            "carries all eight registered block types + an unknown one) serialised and parsed back alone, judged like a C01parse "
+            "valid case; rd = two bundles behind each other parsed from one reader that delivers the bytes in pieces (one byte, "
+            "half, random sizes, a boundary at every offset around the bundle boundary, small / default bufio): same bundles and "
+            "offsets as from a bytes.Reader and the model; ser = serialisations (WriteBundle, MarshalCbor, block by block) that "
+            "fail - writers failing at every (quick: every 3rd) offset, or an unencodable block value - and parses that fail (cut "
+            "encodings), 1-3 in a row, each run "
+            "followed by a serialisation into a healthy writer: the output must be the encoding produced before any failure and "
+            "parse back to the bundle (judged like a valid case, model included); reent = a bundle serialised into a writer that "
+            "serialises another bundle before / after it takes each Write: both outputs must be the reference encodings; conc = 8 (12) goroutines x 1200 (5000) iterations x "
+            "3 (12) rounds, each serialising (plain buffer / a writer yielding on every Write) and parsing ITS OWN two (three) bundles, "
+            "which carry all block types with values that differ per goroutine: every output must be the encoding produced alone "
+            "(blocks with several map entries: parse back to the bundle) - every other output is reported with what it parses to - "
+            "and every parse of the own encoding must give the own bundle",
     "assumptions": ["all eight block types are registered with the ExtensionBlockManager (the harness registers them; the "
                     "daemon registers the routing blocks of the configured algorithm only)",
                     "creation time + lifetime is never within 500 ms of the wall clock (cases inside the bracket are skipped)"],
